@@ -644,7 +644,8 @@ RULE = ("exhaustive over the enumerated options: 3 Dim values x every measured-c
         "layouts (linear, linear+Euler, linear+quaternion, quaternion only; with and without noise augmentation) x the five unscented-transform "
         "overloads x small num / window / call counts (call sequences longer than the trajectory, the window and the 30-element cap), plus seeded "
         "random larger configurations and history-buffer operation sequences; plus inputs outside the declared shapes, on which model and "
-        "implementation must fail in the same entry point; non-trivial = everything except the 2-D motion model alone; distinct by "
+        "implementation must fail in the same entry point with the same kind of precondition, and 72 seeded shape-fuzzing cases per run (one "
+        "size parameter of a valid case moved by +-1/+-2); non-trivial = everything except the 2-D motion model alone; distinct by "
         "(kind, Dim, components, layouts, overload, flags, measured subset)")
 TRUSTED_BASE = ["Coq 8.16.1 kernel (coqc); no axioms (Print Assumptions: closed under the global context); lia/nia",
                 "the shape programs of coq/C14_Model.v are hand transcriptions of the Eigen operations of each entry point (checked only by the differential run)",
@@ -663,12 +664,24 @@ LEVEL_TEXT = ("Proof of a shape calculus: for every configuration (unbounded dim
               "correction of a state containing quaternions) are proved refuted and registered as known findings. Tied to the code by running the "
               "same configurations through the library with Eigen's assertions on and under ASan/UBSan and comparing verdict, failing entry point and "
               "observable shapes / return values.")
-LEVEL_NOTE = ("The shape programs are hand transcriptions; their agreement with the code is sampled (exhaustive over the enumerated options, seeded random "
-              "beyond) and at entry-point granularity. The shape calculus cannot exhibit memory errors that are not index/shape errors: dangling "
-              "reference captures after a move, reads of uninitialised members, aliasing, data-dependent indices other than those the harness pins "
-              "(argmax positions). Those are covered only by the sanitizer run of the thorough tier on the generated call sequences, which includes "
-              "move/copy followed by a call for GPFCorrection (use-after-move and uninitialised flag, both repaired in /repo, reintroduction is "
-              "reported), WhiteNoiseAcceleration, Resampling and HistoryBuffer; LinearModel, SimulatedLinearSensor and LTIMeasurementModel are neither "
-              "copyable nor movable (checked on every run), so their reference-capturing sampler cannot dangle. Degenerate configurations are outside "
-              "the validity premises and only checked for agreement of model and code: empty particle sets, prior share 1, sub-measurement size 0, "
-              "grid initialiser on states that are not 4-dimensional, inputs whose shape differs from the declared description.")
+LEVEL_NOTE = ("The shape programs are hand transcriptions. Their tie to the code is sampled (exhaustive over the enumerated options, seeded random "
+              "beyond) and consists of: equality of verdict (safe / threw / fails), of the failing entry point, of the KIND of failing precondition "
+              "(product, size mismatch, block, index, comma initialiser, division) and of the observable shapes / return values, under Eigen "
+              "assertions and under ASan+UBSan (both tiers). It is NOT a site-by-site trace comparison: a redirected eigen_assert sees neither "
+              "operand sizes nor the calling line, and Eigen's decompositions evaluate thousands of internal assertions of the same kinds. A site "
+              "label is therefore confronted with the code only in cases where it is the first to fail; valid cases, the 'outside' cases and the "
+              "seeded shape fuzzing (one size parameter of a valid case moved by +-1/+-2) make about 60-70 of about 700 (entry, site) labels fail per "
+              "run (numbers and the list of never-failing labels are in the evidence histogram); most of the others (all of sigma_point, "
+              "augmentWithNoise, the likelihood programs, the blocks guarded by earlier items) cannot fail for any input constructible through the "
+              "API, so a wrong offset in their transcription would be noticed only through the hand-made mutations of the code, not by a run. "
+              "The shape calculus cannot exhibit memory errors that are not index/shape errors: dangling reference captures after a move, reads of "
+              "uninitialised members, raw-pointer loops (rand_vectors.data() + i), aliasing, data-dependent indices other than those the harness "
+              "pins (argmax positions). Those are covered only by the sanitizer variant on the generated call sequences, which includes move/copy "
+              "followed by a call for GPFCorrection (use-after-move and uninitialised flag, both repaired in /repo; a reintroduction is reported), "
+              "WhiteNoiseAcceleration, Resampling and HistoryBuffer; LinearModel, SimulatedLinearSensor and LTIMeasurementModel are neither "
+              "copyable nor movable (checked on every run). Not modelled: standalone GaussianMixture / ParticleSet constructors, resize and element "
+              "accessors (C11's subject; used here only through the steps), measure(), the logger. Degenerate configurations are outside the "
+              "validity premises, modelled as failing items where the code divides (SUKF sub-measurement size 0, empty noise covariance in the UVR "
+              "density) and checked for agreement: empty particle sets, prior share 1, inputs whose shape differs from the declared description. "
+              "DESIGN.md's plan to re-run the generators of the other properties under the assertion build was NOT carried out: only C14's own "
+              "generators run under these builds.")
